@@ -74,10 +74,10 @@ _update("c11_update_yaml_S8", "quick", 8, 1, 1, 1, extra=["-DYAML_FENCE"], note=
 # ---- strip_line_tokens_from_metadata: bounded line-token chain
 # (defect found here, fixed in /repo ed1af1d: a block ending at end of input without newline lost the last value byte,
 #  `printf 'a: 1\nb: 23' | multimarkdown -e b` printed 2)
-def _strip(name, tier, sn, nl, modular=False, default_arm=False):
+def _strip(name, tier, sn, nl, modular=False, default_arm=False, yaml=False, props=("C11", "C01")):
     uw = sn + (nl + 2 if modular else 2)
-    U(name, ["C11", "C01"], "h_strip", ["C11/strip.c"], (["mmd.c", "stack.c", "char.c"] if modular else _LK_REPO), plain=True, lib=_C11_LIB, kind="bounded", tier=tier,
-      defines=["-DSN=%d" % sn, "-DNL=%d" % nl, "-DSINK_CAP=%d" % (sn + nl + 3), "-DTOLOWER_STRICT", "-DTOLOWER_7BIT"] + (["-DSTRIP_MODULAR"] if modular else []) + (["-DDEFAULT_ARM"] if default_arm else []),
+    U(name, list(props), "h_strip", ["C11/strip.c"], (["mmd.c", "stack.c", "char.c"] if modular else _LK_REPO), plain=True, lib=_C11_LIB, kind="bounded", tier=tier,
+      defines=["-DSN=%d" % sn, "-DNL=%d" % nl, "-DSINK_CAP=%d" % (sn + nl + 3), "-DTOLOWER_STRICT", "-DTOLOWER_7BIT"] + (["-DYAML_FENCE"] if yaml else []) + (["-DSTRIP_MODULAR"] if modular else []) + (["-DDEFAULT_ARM"] if default_arm else []),
       bounds={"source length<=": sn, "line tokens<=": nl, "unwind": uw}, cbmc_flags=["--unwind", str(uw), "--unwinding-assertions"],
       functions=["strip_line_tokens_from_metadata", "stack_push", "char_is_line_ending", "char_is_whitespace"] + ([] if modular else ["meta_new", "meta_set_value", "label_from_string", "clean_string"]),
       callees={"scan_meta_key": "contract stub (re2c scanner ASSUMED): k key bytes followed by ':' on the line", "scan_meta_line": "not reached (line types restricted to META/INDENTED/PLAIN)",
@@ -89,6 +89,7 @@ def _strip(name, tier, sn, nl, modular=False, default_arm=False):
 _strip("c11_strip_S5", "quick", 5, 2)
 _strip("c11_strip_mod_S8", "quick", 8, 3, modular=True)
 _strip("c11_strip_default_arm_S6", "quick", 6, 2, modular=True, default_arm=True)   # lines of another kind: key line iff scan_meta_line (contract) says so
+_strip("c11_strip_yaml_S8", "quick", 8, 3, modular=True, yaml=True, props=("C11", "C01", "C20"))   # YAML-fenced block: the fence lines carry no record and no value text
 _strip("c11_strip_mod_S10", "thorough", 10, 3, modular=True)   # (S12 was measured once: ok, 2229 s -- too close to the timeout to register)
 
 # ---- mmd_engine_has_metadata: the records of ONE parse, never appended to an earlier request's (fix 3c42d25)
